@@ -428,10 +428,10 @@ pub fn run(ctx: &Ctx) {
     let n = cases.len() as u64;
     indexed_stage(ctx, "all-lengths", n, |i| cases[i as usize].clone(), run_len);
     ctx.extra("exhaustive_stage", json!({"lengths": "0..=70", "size_patterns": 3, "build_modes": 4, "cases": n, "exhaustive": true}));
-    random_stage(ctx, "random", ctx.tier.pick(2_000, 100_000), tops_strategy, |ops: &Vec<TOp>, local| run_tops(ops, local));
-    random_stage(ctx, "replicas", ctx.tier.pick(1_500, 80_000), || session_strategy(30), |ops: &Vec<SOp>, local| run_replica(ops, local));
-    random_stage(ctx, "crash-states", ctx.tier.pick(1_200, 60_000), || crate::props::c02::crash_history_strategy(14), |ops: &Vec<Op>, local| run_crash_states(ops, local));
-    random_stage(ctx, "virtual-sizes", ctx.tier.pick(3_000, 60_000), virt_strategy, |c: &VirtCase, local| run_virtual(c, local));
+    random_stage(ctx, "random", ctx.tier.pick(6_000, 100_000), tops_strategy, |ops: &Vec<TOp>, local| run_tops(ops, local));
+    random_stage(ctx, "replicas", ctx.tier.pick(4_500, 80_000), || session_strategy(30), |ops: &Vec<SOp>, local| run_replica(ops, local));
+    random_stage(ctx, "crash-states", ctx.tier.pick(3_600, 60_000), || crate::props::c02::crash_history_strategy(14), |ops: &Vec<Op>, local| run_crash_states(ops, local));
+    random_stage(ctx, "virtual-sizes", ctx.tier.pick(9_000, 60_000), virt_strategy, |c: &VirtCase, local| run_virtual(c, local));
     // a few large logs
     let big = ctx.tier.pick(2u64, 8u64);
     indexed_stage(
